@@ -19,6 +19,9 @@ def plan(tier, seed):
         # two rows: filters must act row by row (a statistic taken over the whole batch leaks between rows)
         for top_k, mode in ((2, "plain"), (0, "topp"), (1, "select")):
             jobs.append({"id": f"C10:n={n} top_k={top_k} {mode} B=2", "module": "vf.decoding", "func": "decoding_job", "params": dict(n=n, top_k=top_k, mode=mode, B=2)})
+    # through DecodingStrategy.step (the settings reach process_logits unchanged), batch sizes around top_k
+    for B, top_k in ((1, 1), (2, 1), (2, 2)) + (((3, 2), (2, 3), (1, 2)) if tier == "thorough" else ()):
+        jobs.append({"id": f"C10:n=3 top_k={top_k} strategy B={B}", "module": "vf.decoding", "func": "decoding_job", "params": dict(n=3, top_k=top_k, mode="strategy", B=B)})
     if tier == "thorough":
         jobs.append({"id": "C10:n=6 top_k=0 topp", "module": "vf.decoding", "func": "decoding_job", "params": dict(n=6, top_k=0, mode="topp")})
         jobs.append({"id": "C10:n=6 top_k=3 plain", "module": "vf.decoding", "func": "decoding_job", "params": dict(n=6, top_k=3, mode="plain")})
